@@ -26,7 +26,7 @@ MANIFEST = dict(
 def run(ctx):
     proved = vlib.prove(ctx)
     quick = ctx.tier == "quick"
-    nprog, maxlen = (600, 10) if quick else (5000, 24)
+    nprog, maxlen = (600, 10) if quick else (3000, 20)
     data = vlib.run_harness("c02.py", [ctx.seed, nprog, maxlen], timeout=3000)
     cases, meta = data["cases"], data["meta"]
     ctx.cov["rule"] = ("random programs (2..%d steps) over formula(string|atom|dict|nested|Formula), +, n*, +=, aliasing; atoms drawn "
@@ -43,7 +43,7 @@ def run(ctx):
         if not data["direct_fails"]:
             ctx.report("C02:" + kind, "%s no longer checks: %s" % (kind, msg), dict(obligation=kind, detail=msg), found_input=False)
         return
-    n_ok, fails, logs, _ = vlib.run_shards("C02", PRE, CT, cases, "check_all", shard=60 if quick else 200)
+    n_ok, fails, logs, _ = vlib.run_shards("C02", PRE, CT, cases, "check_all", shard=60 if quick else 50, timeout=1500)
     for l in logs:
         ctx.note(l)
     ctx.cov["model_agreed"] = n_ok
